@@ -166,13 +166,18 @@ impl DeriveShape for SelectDef {
     fn derive_shape(&self, symbol_table: &mut BTreeMap<Rc<str>, Shape>) -> Shape {
         let SelectDef {
             val: _,
-            default: _,
+            default,
             tuple,
             pos: _,
         } = self;
         let mut narrowed_shape =
-            NarrowedShape::new_with_pos(Vec::with_capacity(tuple.len()), self.pos.clone());
+            NarrowedShape::new_with_pos(Vec::with_capacity(tuple.len() + 1), self.pos.clone());
         for (_, _constraint, expr) in tuple {
+            let shape = expr.derive_shape(symbol_table);
+            narrowed_shape.merge_in_shape(shape, symbol_table);
+        }
+        // The default is one of the values the select can have.
+        if let Some(expr) = default {
             let shape = expr.derive_shape(symbol_table);
             narrowed_shape.merge_in_shape(shape, symbol_table);
         }
